@@ -188,6 +188,15 @@ func c13Run(t *testing.T, root string, sc c13Scenario, mk func() *Model, plan fa
 		if !res.probeOK {
 			fail("probe-failed", sprintf("fresh connection after the scenario is not served: closed=%v resp=%s", pclosed, hexHead(pr)))
 		}
+		// ... and it is served correct data (nothing of the broken connection may leak into it)
+		pm := newModel(root, false)
+		for _, rq := range []Req{mkReq(opOpenFile, "/plain/f2048.bin"), rdReq(3, 2000), rdcReq(0, 2048), mkReq(opOpenFile, "/plain/f65537.bin"), rdReq(100, 65000)} {
+			resp, cl := s.Exchange(p, rq.Encode())
+			if w, _ := pm.Check(rq, resp, cl); w != "" {
+				fail("probe-wrong-data", sprintf("fresh connection after the scenario: %s: %s", rq, w))
+				break
+			}
+		}
 		s.Shutdown()
 		select {
 		case <-s.done:
